@@ -7,12 +7,21 @@
   trees, all paths, all depths.  A node is addressed by an index path `p` (`reach`), its depth is
   `p.length - 1`; descent goes only through wrappers whose inner messages are executed.
 
+  Part 1b (routes).  `NewAnteHandler` picks the ante chain by the tx's first extension option; the
+  route table (URL → constructor → decorators) is regenerated into `Gen.Ante.routes`.  The theorems
+  say that EVERY route gates the message types: it runs the reject decorator right after context
+  set-up, or (the eth route) a decorator that in every mode insists on MsgEthereumTx only — so no
+  disabled cosmos message is accepted through any route, and an unlisted extension option is
+  rejected outright.  What the SDK / ethermint decorators do is the hand-written `classify`
+  (trusted reading, exercised by the harness through the real `app.AnteHandler()`).
+
   Part 2 (guards).  `authority_guard_table` / `owner_guard_table` are facts about the regenerated
   guard table (`Gen.Guards`), and the M-Guards theorems say what those facts give for every state,
   every signer and every op sequence.  That the table describes the handlers is the extractor's
   claim, validated behaviourally by the harness (translator = trusted base).
 -/
 import DymVerif.Lemmas.AnteBasic
+import DymVerif.Lemmas.AnteRoutes
 import DymVerif.Gen.Ante
 import DymVerif.Gen.Guards
 namespace DymVerif.C20
@@ -244,6 +253,147 @@ theorem granted_update_client_cannot_be_executed (tx : List Msg) (p : List Nat) 
 
 example : anteCheck cfg [.node tyExec [.node tyUpdateClient [] 0 false] 0 false]
     = some (.disabled tyUpdateClient) := by decide
+
+/-! ## clause: the deprecated misbehaviour submission -/
+
+/-- table fact: `MsgSubmitMisbehaviour` is blocked from depth 1 on (it is listed next to the
+    light-client update) and allowed at the top level, where the light-client decorator sees it -/
+theorem gen_misbehaviour_blocked_nested :
+    blocked cfg tyMisbehaviour 1 = true ∧ blocked cfg tyMisbehaviour 0 = false := by decide
+
+/-- **misbehaviour_rejected_when_nested**: a `MsgSubmitMisbehaviour` at any depth ≥ 1 — inside authz
+    exec, a gov or a group proposal, in any combination — makes the transaction fail -/
+theorem misbehaviour_rejected_when_nested (tx : List Msg) (p : List Nat) (m : Msg)
+    (hr : reach W tx p = some m) (ht : m.ty = tyMisbehaviour) (hn : 2 ≤ p.length) :
+    anteCheck cfg tx ≠ none := by
+  rw [← accOf_cfg] at hr
+  apply blocked_node_rejected cfg tx p m hr
+  rw [ht]
+  exact blocked_mono gen_misbehaviour_blocked_nested.1 (by omega)
+
+/-- … and so does a nested grant naming it -/
+theorem grant_of_misbehaviour_rejected_when_nested (tx : List Msg) (p : List Nat) (m : Msg)
+    (hr : reach W tx p = some m) (hg : m.ty = tyGrant) (ha : m.auth = tyMisbehaviour)
+    (hn : 2 ≤ p.length) : anteCheck cfg tx ≠ none := by
+  intro hacc
+  rw [← accOf_cfg] at hr
+  have hp := accepted_path cfg p 0 tx m hacc hr
+  have hacc' : accOf cfg m.ty = some .grant := by rw [hg]; decide
+  have hb := (hp.grant hacc').2
+  simp only [Nat.zero_add] at hb
+  rw [ha, blocked_mono gen_misbehaviour_blocked_nested.1 (by omega)] at hb
+  cases hb
+
+example : anteCheck cfg [.node tyGovSubmit [.node tyMisbehaviour [] 0 false] 0 false]
+    = some (.disabled tyMisbehaviour) := by decide
+example : anteCheck cfg [.node tyMisbehaviour [] 0 false] = none := by decide
+
+/-! ## Part 1b: every route of `NewAnteHandler` -/
+
+abbrev routes : List Route := Gen.Ante.routes
+
+/-- everything of NewAnteHandler's closure that is not extracted as data still has the modelled text
+    (first extension option selects the route, default case rejects, no option = cosmos chain) -/
+theorem gen_route_shape_ok : Gen.Ante.routeShapeOk = true := by decide
+
+/-- table fact (decided on the regenerated route table, decorators classified by `classify`): every
+    route runs the reject decorator first after context set-up, or contains a decorator that in
+    every mode fails unless all messages are MsgEthereumTx.  A new route without either, or the
+    reject decorator moved behind a fee / signature decorator, breaks this. -/
+theorem gen_routes_guarded : ∀ r ∈ routes, routeGuarded r = true := by decide
+
+/-- table fact: a tx without extension options is routed, and to a chain that rejects first -/
+theorem gen_plain_route_rejects_first :
+    (routeOf routes none).any (fun r => rejectFirst (r.decs.map classify)) = true := by decide
+
+/-- table fact: the routes are not vacuous — the plain and the ethereum one exist, with different
+    chains (non-vacuity of the statements below) -/
+theorem gen_routes_nonvacuous :
+    routes.length = 2 ∧
+    (routeOf routes (some "/ethermint.evm.v1.ExtensionOptionsEthereumTx")).any
+      (fun r => ethGuarded (r.decs.map classify) && !rejectFirst (r.decs.map classify)) = true := by
+  decide
+
+/-- **every_route_guards**: whatever the extension option and the mode (ReCheckTx or not), a
+    transaction that no decorator of its route rejects for its message types has either passed
+    the reject decorator (`anteCheck`) or consists of MsgEthereumTx messages only. -/
+theorem every_route_guards (rc : Bool) (ext : Option String) (tx : List Msg)
+    (h : runAnte cfg routes rc ext tx = none) :
+    anteCheck cfg tx = none ∨ ∀ m ∈ tx, m.ty = tyEthTx := by
+  unfold runAnte at h
+  cases hr : routeOf routes ext with
+  | none => rw [hr] at h; cases h
+  | some r =>
+    rw [hr] at h
+    have hm : r ∈ routes := List.mem_of_find?_eq_some hr
+    exact runDecs_guarded (gen_routes_guarded r hm) h
+
+/-- **unknown_extension_rejected**: a first extension option that no route lists is refused before
+    any chain runs -/
+theorem unknown_extension_rejected (rc : Bool) (u : String) (tx : List Msg)
+    (hu : ∀ r ∈ routes, r.ext ≠ some u) : runAnte cfg routes rc (some u) tx = some .unknownExt := by
+  have : routeOf routes (some u) = none := by
+    unfold routeOf
+    rw [List.find?_eq_none]
+    intro r hr
+    simpa using hu r hr
+  simp [runAnte, this]
+
+example : runAnte cfg routes false (some "/ethermint.types.v1.ExtensionOptionsWeb3Tx")
+    [.node tyOther [] 0 false] = some .unknownExt := by decide
+
+/-- a MsgEthereumTx is no wrapper: nothing is reachable below it -/
+theorem ethtx_not_wrapper : W tyEthTx ≠ some .msgs := by decide
+
+/-- **disabled_rejected_on_every_route**: vesting-account creation at any position, a light-client
+    update or misbehaviour submission at any nested position: rejected through EVERY route, in
+    every mode — on the eth route because a transaction carrying anything but MsgEthereumTx is
+    refused as a whole. -/
+theorem disabled_rejected_on_every_route (rc : Bool) (ext : Option String) (tx : List Msg)
+    (p : List Nat) (m : Msg) (hr : reach W tx p = some m)
+    (hd : (m.ty ∈ alwaysDisabled ∧ m.ty ≠ tyEthTx) ∨
+          ((m.ty = tyUpdateClient ∨ m.ty = tyMisbehaviour) ∧ 2 ≤ p.length)) :
+    runAnte cfg routes rc ext tx ≠ none := by
+  intro h
+  cases every_route_guards rc ext tx h with
+  | inl hacc =>
+    rcases hd with ⟨hm, _⟩ | ⟨hm | hm, hn⟩
+    · exact disabled_rejected_everywhere tx p m hr (.inl hm) hacc
+    · exact disabled_rejected_everywhere tx p m hr (.inr ⟨hm, hn⟩) hacc
+    · exact misbehaviour_rejected_when_nested tx p m hr hm hn hacc
+  | inr hall =>
+    have hw : ∀ x ∈ tx, W x.ty ≠ some .msgs := fun x hx => by rw [hall x hx]; exact ethtx_not_wrapper
+    have ⟨hmem, hlen⟩ := reach_no_wrapper hw hr
+    have hty := hall m hmem
+    rcases hd with ⟨_, hne⟩ | ⟨_, hn⟩
+    · exact hne hty
+    · omega
+
+/-- **ethtx_only_as_top_level_of_eth_only_tx**: a raw EVM message is accepted nowhere except as a
+    top-level message of a transaction that consists of MsgEthereumTx only (which only the eth
+    route lets through; the cosmos chain rejects it by type, `ethtx_rejected`) -/
+theorem ethtx_only_as_top_level_of_eth_only_tx (rc : Bool) (ext : Option String) (tx : List Msg)
+    (h : runAnte cfg routes rc ext tx = none) (p : List Nat) (m : Msg)
+    (hr : reach W tx p = some m) (ht : m.ty = tyEthTx) :
+    p.length = 1 ∧ ∀ x ∈ tx, x.ty = tyEthTx := by
+  cases every_route_guards rc ext tx h with
+  | inl hacc => exact absurd hacc (ethtx_rejected tx p m hr ht)
+  | inr hall =>
+    have hw : ∀ x ∈ tx, W x.ty ≠ some .msgs := fun x hx => by rw [hall x hx]; exact ethtx_not_wrapper
+    exact ⟨(reach_no_wrapper hw hr).2, hall⟩
+
+/-- non-vacuity: the eth route refuses a vesting message (also next to a MsgEthereumTx, also on
+    ReCheckTx, where the validate-basic decorator is skipped), lets an eth-only tx through; the
+    plain route refuses the raw EVM message -/
+example :
+    runAnte cfg routes false (some "/ethermint.evm.v1.ExtensionOptionsEthereumTx")
+      [.node tyEthTx [] 0 false, .node tyVest [] 0 false] = some (.notEth tyVest) ∧
+    runAnte cfg routes true (some "/ethermint.evm.v1.ExtensionOptionsEthereumTx")
+      [.node tyVest [] 0 false] = some (.notEth tyVest) ∧
+    runAnte cfg routes false (some "/ethermint.evm.v1.ExtensionOptionsEthereumTx")
+      [.node tyEthTx [] 0 false] = none ∧
+    runAnte cfg routes false none [.node tyEthTx [] 0 false] = some (.ante (.invalidType tyEthTx)) := by
+  decide
 
 /-! ## Part 2: guard table -/
 
